@@ -2,6 +2,7 @@ CONSTANTS Families = {"one", "rsv", "two", "three"}  Bug = ""  Emit = TRUE
   TwoFlags = {3, 6}
   TwoSizes = {5}
   ThreeSizes = {5}
+  HistLen = 3
 CONSTANT OneRsv <- MCOneRsvQuick
 INIT Init
 NEXT Next
